@@ -193,3 +193,109 @@ pub fn pick_variant(rng: &mut crate::rng::Rng, tier: crate::runner::Tier) -> &'s
         },
     }
 }
+
+// ------------------------------------------------------------------ layout helpers (from the format model)
+
+use crate::refmla;
+
+/// stored offset (relative to the start of the encrypted stream) of plaintext offset `p`
+pub fn enc_stored_off(p: usize, chunk: usize) -> usize {
+    p + 16 * (p / chunk)
+}
+
+/// payload bytes present in the first `n` bytes of an encrypted stream whose original length is `orig_len`
+pub fn enc_payload_present(orig_len: usize, n: usize, chunk: usize) -> usize {
+    refmla::chunk_ranges(orig_len, chunk).iter().map(|r| r.payload.min(n.saturating_sub(r.start))).sum()
+}
+
+/// payload bytes in chunks that are completely present (payload + tag) in the first `n` bytes
+pub fn enc_payload_authenticated(orig_len: usize, n: usize, chunk: usize) -> usize {
+    let mut s = 0;
+    for r in refmla::chunk_ranges(orig_len, chunk) {
+        if r.start + r.payload + r.tag <= n {
+            s += r.payload;
+        } else {
+            break;
+        }
+    }
+    s
+}
+
+pub struct Layout {
+    pub dec: refmla::Decoded,
+    /// sorted (image offset, region class)
+    pub regions: Vec<(usize, &'static str)>,
+    /// structural anchors (image offsets)
+    pub anchors: Vec<usize>,
+}
+
+/// Layout map of a complete image written by the library
+pub fn layout_of(image: &[u8], cfg: &ArcCfg, chunk: usize, block: usize) -> Result<Layout, String> {
+    let key = crate::model::key_bytes(cfg.key_seed, cfg.reader);
+    let dec = refmla::decode(image, if cfg.enc() { Some(&key) } else { None }, refmla::Params { chunk, block })?;
+    let h = dec.header.len;
+    let mut regions: Vec<(usize, &'static str)> = vec![(0, "header")];
+    let mut anchors = vec![0, h, image.len()];
+    let to_image = |p: usize| -> usize { if cfg.enc() { h + enc_stored_off(p, chunk) } else { h + p } };
+    if cfg.enc() {
+        for r in &dec.chunks {
+            regions.push((h + r.start, "chunk-payload"));
+            regions.push((h + r.start + r.payload, "chunk-tag"));
+            anchors.push(h + r.start);
+            anchors.push(h + r.start + r.payload);
+        }
+    }
+    if let Some(c) = &dec.comp {
+        for (off, _sz, _u) in &c.blocks {
+            anchors.push(to_image(*off));
+            if !cfg.enc() {
+                regions.push((h + off, "comp-block"));
+            }
+        }
+        anchors.push(to_image(c.sizes_at));
+        if !cfg.enc() {
+            regions.push((h + c.sizes_at, "sizes-footer"));
+        }
+    } else {
+        for b in &dec.blocks {
+            anchors.push(to_image(b.off()));
+            if !cfg.enc() {
+                let cls = match b {
+                    refmla::FBlock::Start { .. } => "blk-start",
+                    refmla::FBlock::Content { .. } => "blk-content",
+                    refmla::FBlock::End { .. } => "blk-end",
+                    refmla::FBlock::EndOfArchive { .. } => "blk-marker",
+                };
+                regions.push((h + b.off(), cls));
+                if let refmla::FBlock::Content { data_at, .. } = b {
+                    regions.push((h + data_at, "blk-content-data"));
+                }
+            }
+        }
+        anchors.push(to_image(dec.index.at));
+        if !cfg.enc() {
+            regions.push((h + dec.index.at, "index"));
+        }
+    }
+    regions.sort();
+    anchors.sort();
+    anchors.dedup();
+    Ok(Layout { dec, regions, anchors })
+}
+
+impl Layout {
+    /// region class of image offset `n` (the byte at n, or "end")
+    pub fn class_at(&self, n: usize, len: usize) -> &'static str {
+        if n >= len {
+            return "end";
+        }
+        match self.regions.binary_search_by(|r| r.0.cmp(&n)) {
+            Ok(i) => self.regions[i].1,
+            Err(0) => "header",
+            Err(i) => self.regions[i - 1].1,
+        }
+    }
+    pub fn is_anchor(&self, n: usize) -> bool {
+        self.anchors.binary_search(&n).is_ok()
+    }
+}
